@@ -9,12 +9,31 @@ export GOFLAGS=-mod=mod GOPROXY=off GOSUMDB=off GOTOOLCHAIN=local
 cd "$VERIF_DIR/sim" || exit 2
 mkdir -p "$VERIF_DIR/bin"
 BIN="$VERIF_DIR/bin/vsim.$$"
+LOG="$VERIF_DIR/bin/build.$$.log"
+SCRATCH="$VERIF_DIR/bin/repo.auto"
+MODF="$VERIF_DIR/sim/go.auto.mod"
+cleanup() { rm -rf "$LOG" "$BIN" "$VERIF_DIR/bin/autoyield.$$"; }
+trap cleanup EXIT INT TERM
 cp /repo/go.sum go.sum 2>/dev/null
-if ! go build -tags verif -o "$BIN" ./cmd/vsim >"$VERIF_DIR/bin/build.$$.log" 2>&1; then
-  echo "BUILD FAILED (exit 2, not a violation):"; cat "$VERIF_DIR/bin/build.$$.log"; rm -f "$VERIF_DIR/bin/build.$$.log" "$BIN"; exit 2
+fail() { echo "BUILD FAILED (exit 2, not a violation):"; cat "$LOG"; exit 2; }
+if [ "${VERIF_AUTOYIELD:-1}" = "1" ]; then
+  # build from a scratch copy of /repo's working tree in which yield points were inserted
+  # after every waking operation (see sim/cmd/autoyield); the copy is deleted after the build
+  # (one fixed scratch path, serialised by a lock: keeps the Go build cache effective and small)
+  go build -o "$VERIF_DIR/bin/autoyield.$$" ./cmd/autoyield >"$LOG" 2>&1 || fail
+  (
+    flock 9
+    mkdir -p "$SCRATCH"
+    rsync -a --delete --exclude .git /repo/ "$SCRATCH/" || exit 1
+    "$VERIF_DIR/bin/autoyield.$$" "$SCRATCH" || exit 1
+    sed "s#=> /repo#=> $SCRATCH#" go.mod > "$MODF"; cp go.sum "${MODF%.mod}.sum"
+    go build -modfile="$MODF" -tags verif -o "$BIN" ./cmd/vsim || exit 1
+    rm -rf "$SCRATCH" "$MODF" "${MODF%.mod}.sum"
+  ) 9>"$VERIF_DIR/bin/.buildlock" >"$LOG" 2>&1 || fail
+else
+  go build -tags verif -o "$BIN" ./cmd/vsim >"$LOG" 2>&1 || fail
 fi
-rm -f "$VERIF_DIR/bin/build.$$.log"
-trap 'rm -f "$BIN"' EXIT INT TERM
+rm -f "$LOG"
 cd "$VERIF_DIR" || exit 2
 cmd="$1"; shift
 case "$cmd" in
@@ -24,5 +43,4 @@ case "$cmd" in
   build)   cp "$BIN" "$VERIF_DIR/bin/vsim"; rc=0 ;;
   *) echo "usage: run.sh check|replay|dettest|build ..."; rc=2 ;;
 esac
-rm -f "$BIN"
 exit $rc
